@@ -180,12 +180,23 @@ pub fn op_tetris(args: &[Sexp]) -> String {
             Ptr::new(t::cell::Cell::from(lay))
         })
         .collect();
+    // the later dependencies of every other case are ARRAY instances in `places`; the array definition of a target cell
+    // is ONE shared object, instantiated from every cell that uses it (a cycle may be entered through it from outside)
+    let arrays_too = (n + items.len()) % 2 == 1;
+    let shared: Vec<Ptr<t::array::Array>> = (0..n).map(|d| Ptr::new(t::array::Array { name: format!("s{}", d), unit: t::array::Arrayable::Instance(cells[d].clone()), count: 1, sep: t::placement::Separation::default() })).collect();
     let wire = |g: &Vec<Vec<usize>>| {
         for i in 0..n {
             let mut c = cells[i].write().unwrap();
             let lay = c.layout.as_mut().unwrap();
             lay.instances = Default::default();
+            lay.places.clear();
             for (k, d) in g[i].iter().enumerate() {
+                // the first half of a cell's dependencies stay plain instances, the second half are arrays: the orderer
+                // walks `instances` before `places`, so the visiting order is the listed order
+                if arrays_too && k >= g[i].len() / 2 {
+                    lay.places.push(t::placement::Placeable::Array(Ptr::new(t::array::ArrayInstance { name: format!("ai{}", k), array: shared[*d].clone(), loc: (k as isize, 0).into(), reflect_horiz: false, reflect_vert: false })));
+                    continue;
+                }
                 lay.instances.add(t::instance::Instance {
                     inst_name: format!("i{}", k),
                     cell: cells[*d].clone(),
@@ -217,6 +228,7 @@ pub fn op_tetris(args: &[Sexp]) -> String {
     for c in &cells {
         c.write().unwrap().layout = None;
     }
+    for a in &shared { if let Ok(mut a) = a.write() { a.count = 0; a.unit = t::array::Arrayable::Instance(Ptr::new(t::cell::Cell::new("x"))); } }
     out
 }
 
@@ -234,12 +246,16 @@ pub fn op_tetrisraw(args: &[Sexp]) -> String {
     let cells: Vec<Ptr<t::cell::Cell>> = (0..n)
         .map(|i| Ptr::new(t::cell::Cell::from(t::layout::Layout::new(format!("c{}", i), 0, t::outline::Outline::rect(40, 40).unwrap()))))
         .collect();
+    // every other case the array DEFINITION of a target cell is one shared object: all array instances of that cell, in
+    // whatever cell they stand, point at the same `Ptr<Array>` (an array definition is meant to be instantiated many times)
+    let share = (n + items.len()) % 2 == 0;
+    let shared: Vec<Ptr<Array>> = (0..n).map(|d| Ptr::new(Array { name: format!("s{}", d), unit: Arrayable::Instance(cells[d].clone()), count: 1, sep: Separation::default() })).collect();
     for i in 0..n {
         let mut c = cells[i].write().unwrap();
         let lay = c.layout.as_mut().unwrap();
         for (k, d) in tbl[i].iter().enumerate() {
             if k % 2 == 0 {
-                let arr = Ptr::new(Array { name: format!("a{}", k), unit: Arrayable::Instance(cells[*d].clone()), count: 1, sep: Separation::default() });
+                let arr = if share { shared[*d].clone() } else { Ptr::new(Array { name: format!("a{}", k), unit: Arrayable::Instance(cells[*d].clone()), count: 1, sep: Separation::default() }) };
                 lay.places.push(Placeable::Array(Ptr::new(ArrayInstance { name: format!("ai{}", k), array: arr, loc: (k as isize, 0).into(), reflect_horiz: false, reflect_vert: false })));
             } else {
                 lay.places.push(Placeable::Instance(Ptr::new(t::instance::Instance { inst_name: format!("i{}", k), cell: cells[*d].clone(), loc: (k as isize, 1).into(), reflect_horiz: false, reflect_vert: false })));
@@ -269,7 +285,195 @@ pub fn op_tetrisraw(args: &[Sexp]) -> String {
     for c in &cells {
         if let Ok(mut c) = c.write() { c.layout = None; }
     }
+    for a in &shared { if let Ok(mut a) = a.write() { a.count = 0; a.unit = Arrayable::Instance(Ptr::new(t::cell::Cell::new("x"))); } }
     out
+}
+
+
+// ------------------------------------------------------------------ placement order with ports and assignments
+mod portplace {
+    pub use layout21tetris::abs;
+    pub use layout21tetris::cell::Cell;
+    pub use layout21tetris::instance::Instance;
+    pub use layout21tetris::layout::Layout;
+    pub use layout21tetris::library::Library;
+    pub use layout21tetris::outline::Outline;
+    pub use layout21tetris::placement::{Align, Placeable, RelAssign, RelativePlace, Separation, Side};
+    pub use layout21tetris::placer::Placer;
+    pub use layout21tetris::raw::{self, Dir, LayoutResult, Units};
+    pub use layout21tetris::stack::*;
+    pub use layout21tetris::tracks::*;
+    pub use layout21tetris::utils::Ptr;
+    pub use layout21tetris::validate::ValidStack;
+    /// A small three-metal stack, sufficient for locating `ZTopEdge` ports
+    pub fn stack() -> LayoutResult<ValidStack> {
+        let mut rawlayers = raw::Layers::default();
+        let metal_purps = [
+            (255, raw::LayerPurpose::Obstruction),
+            (20, raw::LayerPurpose::Drawing),
+            (5, raw::LayerPurpose::Label),
+            (16, raw::LayerPurpose::Pin),
+        ];
+        let via_purps = [
+            (255, raw::LayerPurpose::Obstruction),
+            (44, raw::LayerPurpose::Drawing),
+            (5, raw::LayerPurpose::Label),
+            (16, raw::LayerPurpose::Pin),
+        ];
+        let horiz = |name: &str, num: i16, prim: PrimitiveMode, rawlayers: &mut raw::Layers| -> LayoutResult<MetalLayer> {
+            Ok(MetalLayer {
+                name: name.into(),
+                entries: vec![
+                    TrackSpec::gnd(480),
+                    TrackSpec::repeat(vec![TrackEntry::gap(200), TrackEntry::sig(140)], 6),
+                    TrackSpec::gap(200),
+                    TrackSpec::pwr(480),
+                ],
+                dir: Dir::Horiz,
+                offset: (-240).into(),
+                cutsize: (250).into(),
+                overlap: (480).into(),
+                raw: Some(rawlayers.add(raw::Layer::from_pairs(num, &metal_purps)?)),
+                flip: FlipMode::EveryOther,
+                prim,
+            })
+        };
+        let boundary_layer = Some(rawlayers.add(raw::Layer::from_pairs(
+            236,
+            &[(0, raw::LayerPurpose::Outline)],
+        )?));
+        let met1 = horiz("met1", 68, PrimitiveMode::Split, &mut rawlayers)?;
+        let met2 = MetalLayer {
+            name: "met2".into(),
+            entries: vec![TrackSpec::sig(140), TrackSpec::gap(320)],
+            dir: Dir::Vert,
+            cutsize: (250).into(),
+            offset: (-70).into(),
+            overlap: (0).into(),
+            raw: Some(rawlayers.add(raw::Layer::from_pairs(69, &metal_purps)?)),
+            flip: FlipMode::None,
+            prim: PrimitiveMode::Stack,
+        };
+        let met3 = horiz("met3", 70, PrimitiveMode::Stack, &mut rawlayers)?;
+        let met4 = MetalLayer {
+            name: "met4".into(),
+            entries: vec![
+                TrackSpec::gnd(510),
+                TrackSpec::repeat(vec![TrackEntry::gap(410), TrackEntry::sig(50)], 8),
+                TrackSpec::gap(410),
+                TrackSpec::pwr(510),
+            ],
+            dir: Dir::Vert,
+            cutsize: (250).into(),
+            offset: (-255).into(),
+            overlap: (510).into(),
+            raw: Some(rawlayers.add(raw::Layer::from_pairs(71, &metal_purps)?)),
+            flip: FlipMode::EveryOther,
+            prim: PrimitiveMode::Stack,
+        };
+        let stack = Stack {
+            units: Units::Nano,
+            boundary_layer,
+            prim: PrimitiveLayer {
+                pitches: (460, 2720).into(),
+            },
+            metals: vec![met1, met2, met3, met4],
+            vias: vec![
+                ViaLayer {
+                    name: "mcon".into(),
+                    size: (240, 240).into(),
+                    bot: ViaTarget::Primitive,
+                    top: ViaTarget::Metal(0),
+                    raw: Some(rawlayers.add(raw::Layer::from_pairs(67, &via_purps)?)),
+                },
+                ViaLayer {
+                    name: "via1".into(),
+                    size: (240, 240).into(),
+                    bot: 0.into(),
+                    top: 1.into(),
+                    raw: Some(rawlayers.add(raw::Layer::from_pairs(68, &via_purps)?)),
+                },
+                ViaLayer {
+                    name: "via2".into(),
+                    size: (240, 240).into(),
+                    bot: 1.into(),
+                    top: 2.into(),
+                    raw: Some(rawlayers.add(raw::Layer::from_pairs(69, &via_purps)?)),
+                },
+                ViaLayer {
+                    name: "via3".into(),
+                    size: (240, 240).into(),
+                    bot: 2.into(),
+                    top: 3.into(),
+                    raw: Some(rawlayers.add(raw::Layer::from_pairs(70, &via_purps)?)),
+                },
+            ],
+            rawlayers: Some(Ptr::new(rawlayers)),
+        };
+        stack.validate()
+    }
+    
+    
+}
+/// `dep.ports (f0 f1 ..) (e0 e1 ..)`: k instances of a unit cell whose abstract has a port. Flag fj: 0 = instance j stands in
+/// `Layout::instances`, 1 = in `Layout::places`, 2 = in `places` AND a net assignment is placed relative to its port.
+/// The entries e (2j = instance j, 2j+1 = the assignment at instance j's port) give the order of `places`.
+/// Result: what the placed layout holds — every instance once, every assignment once, nothing left in `places`.
+pub fn op_ports(args: &[Sexp]) -> String {
+    use portplace::*;
+    let r = (|| -> Option<String> {
+        let flags: Vec<i64> = args.get(0)?.list()?.iter().map(|x| x.int()).collect::<Option<Vec<_>>>()?;
+        let order: Vec<i64> = args.get(1)?.list()?.iter().map(|x| x.int()).collect::<Option<Vec<_>>>()?;
+        let mut lib = Library::new("ports");
+        let mut lil = Cell::new("lil");
+        lil.layout = Some(Layout::new("lil", 1, Outline::rect(2, 1).ok()?));
+        let mut lil_abs = abs::Abstract::new("lil", 1, Outline::rect(2, 1).ok()?);
+        lil_abs.ports.push(abs::Port { name: "PPP".into(), kind: abs::PortKind::ZTopEdge { track: 0, side: abs::Side::BottomOrLeft, into: (2, RelZ::Above) } });
+        lil.abs = Some(lil_abs);
+        let lil = lib.cells.add(lil);
+        let mut parent = Layout::new("parent", 3, Outline::rect(40, 35).ok()?);
+        let insts: Vec<Ptr<Instance>> = (0..flags.len()).map(|j| Ptr::new(Instance { inst_name: format!("i{}", j), cell: lil.clone(), loc: (3 * j as isize, 0isize).into(), reflect_horiz: false, reflect_vert: false })).collect();
+        for (j, f) in flags.iter().enumerate() { if *f == 0 { parent.instances.push(insts[j].clone()); } }
+        for e in &order {
+            let j = (*e / 2) as usize;
+            if j >= flags.len() { return None; }
+            if e % 2 == 0 { if flags[j] >= 1 { parent.places.push(Placeable::Instance(insts[j].clone())); } }
+            else if flags[j] == 2 {
+                parent.places.push(Placeable::Assign(Ptr::new(RelAssign { net: format!("n{}", j), loc: RelativePlace {
+                    to: Placeable::Port { inst: insts[j].clone(), port: "PPP".into() }, align: Align::Center, side: Side::Left, sep: Separation::z(2) } })));
+            }
+        }
+        let parent = lib.cells.add(parent);
+        let st = stack().ok()?;
+        Some(match Placer::place(lib, st) {
+            Err(_) => "err".into(),
+            Ok(_) => {
+                let p = parent.read().ok()?;
+                let ly = p.layout.as_ref()?;
+                let mut names: Vec<String> = ly.instances.iter().map(|i| i.read().unwrap().inst_name.clone()).collect();
+                names.sort();
+                let mut nets: Vec<String> = ly.assignments.iter().map(|a| a.net.clone()).collect();
+                nets.sort();
+                format!("ok (insts {}) (assigns {}) (left {})", names.join(" "), nets.join(" "), ly.places.len())
+            }
+        })
+    })();
+    r.unwrap_or("bad-op".into())
+}
+fn ports_expected(line: &str) -> Option<String> {
+    let p = Sexp::parse_all(line)?;
+    let flags: Vec<i64> = p.get(1)?.list()?.iter().map(|x| x.int()).collect::<Option<Vec<_>>>()?;
+    let order: Vec<i64> = p.get(2)?.list()?.iter().map(|x| x.int()).collect::<Option<Vec<_>>>()?;
+    // an instance in `places` must be listed to exist; an assignment likewise
+    let mut names: Vec<String> = vec![]; let mut nets: Vec<String> = vec![];
+    for (j, f) in flags.iter().enumerate() {
+        let listed_i = order.iter().filter(|e| **e == 2 * j as i64).count();
+        let listed_a = order.iter().filter(|e| **e == 2 * j as i64 + 1).count();
+        if *f == 0 { names.push(format!("i{}", j)); } else { for _ in 0..listed_i.min(1) { names.push(format!("i{}", j)); } if listed_i > 1 { return None; } }
+        if *f == 2 { if listed_a > 1 || (listed_a == 1 && listed_i == 0) { return None; } if listed_a == 1 { nets.push(format!("n{}", j)); } }
+    }
+    names.sort(); nets.sort();
+    Some(format!("ok (insts {}) (assigns {}) (left 0)", names.join(" "), nets.join(" ")))
 }
 
 pub fn op_gds(args: &[Sexp]) -> String {
@@ -391,6 +595,24 @@ pub fn random_graph(rng: &mut Rng, n: usize, cyclic: bool) -> Vec<Vec<usize>> {
 }
 
 pub fn gen(thorough: bool, rng: &mut Rng, out: &mut Vec<String>) {
+    // placement order with ports: every arrangement of up to three instances (in `instances` / in `places` / with a port
+    // assignment) and every listing order of the placeables
+    for k in 1..=3usize {
+        let mut flags = vec![0i64; k];
+        loop {
+            let entries: Vec<i64> = (0..2 * k as i64).collect();
+            let ps = perms(2 * k);
+            let step = if thorough || k < 3 { 1 } else { 7 };
+            for (pi, perm) in ps.iter().enumerate() {
+                if pi % step != 0 { continue; }
+                let ord: Vec<String> = perm.iter().map(|x| entries[*x].to_string()).collect();
+                out.push(format!("dep.ports ({}) ({})", flags.iter().map(|f| f.to_string()).collect::<Vec<_>>().join(" "), ord.join(" ")));
+            }
+            // next flag vector (base 3)
+            let mut c = 0; while c < k { flags[c] += 1; if flags[c] < 3 { break; } flags[c] = 0; c += 1; }
+            if c == k { break; }
+        }
+    }
     // exhaustive: all digraphs with self-loops on 1..3 nodes x all listing orders (generic + embedded)
     for n in 1..=3usize {
         let ps = perms(n);
@@ -554,6 +776,13 @@ pub fn oracle(line: &str) -> String {
     let op = p[0].atom().unwrap_or("").to_string();
     if !op.starts_with("dep.") {
         return "na".into();
+    }
+    if op == "dep.ports" {
+        // the placement order holds every listed placeable exactly once: every instance arrives in `instances`, every
+        // assignment in `assignments`, nothing is left behind — whatever the listing order
+        let want = match ports_expected(line) { Some(w) => w, None => return "na".into() };
+        let res = crate::ops::run_line(line);
+        return if res == want { "pass".into() } else { format!("fail placement of instances / port assignments: got {} want {}", &res[..res.len().min(120)], want) };
     }
     let (tbl, items) = match parse_graph(&p[1..]) {
         Some(x) => x,
